@@ -36,6 +36,13 @@ def cells(tier):
                     if k == 0 and not (gname == "chain2" and cap == 1):
                         continue  # nothing starts before the first next(); one cell suffices
                     C.append((gname, cap, mode, k))
+    # one plugin declares its own (larger) buffer size: every OTHER mailbox must keep the context's capacity
+    for gname, node in (("chain3", "mp"), ("chain3", "fl"), ("chain3", "src"), ("multi_used", "mo"), ("diamond", "pa")):
+        for cap in (1, 2):
+            if cap == 1 and gname != "chain3":
+                continue
+            for mode in ("eager", "lazy"):
+                C.append((f"{gname}@{node}={cap + 3}", cap, mode, 1))
     return C
 
 
@@ -43,7 +50,12 @@ def mk_case(cell, N):
     gname, cap, mode, k = cell
     savers = gname.endswith("+savers")
     gn = gname.split("+")[0]
-    return pipe.PipeCase(gn, tuple(range(N + 1)), mode=mode, max_messages=cap, consumer=("park", k), save_when=None if savers else "explicit")
+    pcap = None
+    if "@" in gn:
+        gn, spec = gn.split("@")
+        node, kk = spec.split("=")
+        pcap = (node, int(kk))
+    return pipe.PipeCase(gn, tuple(range(N + 1)), mode=mode, max_messages=cap, consumer=("park", k), save_when=None if savers else "explicit", plugin_cap=pcap)
 
 
 class H(pipe.PipeHarness):
@@ -131,7 +143,7 @@ def worker_init():
 
 
 def nstages(gname):
-    return {"chain2": 2, "chain3": 3, "diamond": 4, "multi_used": 4, "chain2+savers": 2}[gname]
+    return {"chain2": 2, "chain3": 3, "diamond": 4, "multi_used": 4, "chain2+savers": 2}[gname.split("@")[0]]
 
 
 def run_job(job):
@@ -142,6 +154,8 @@ def run_job(job):
     cell = cells(tier)[i]
     gname, cap, mode, k = cell
     ceiling = k + nstages(gname) * (2 * cap + 2)  # a reader may hold `cap` messages it grabbed at once while the mailbox refills
+    if "@" in gname:
+        ceiling += 2 * 2 * (int(gname.split("=")[1]) - cap)  # the declaring plugin's own mailbox(es, two for a multi-output plugin) are larger
     N = ceiling + 1  # the run must be longer than what the pipeline can buffer
     sets = {}
     for n in (N, 2 * N):
